@@ -34,10 +34,11 @@ Record gstate := mkG {
   files : list (path * N);           (* the datastore root: path -> content *)
   dtypes : list (N * N);             (* dataset types: name -> storage-class variant *)
   next : N;                          (* source of fresh dataset ids (never observed) *)
-  runs : list N                      (* rows of the `run` table: a RUN collection is usable only once its run row exists *)
+  runs : list N;                     (* rows of the `run` table: a RUN collection is usable only once its run row exists *)
+  gtabs : list N                     (* dimension groups whose dynamic tag tables exist (created by the first dataset type over them) *)
 }.
 
-Definition g0 : gstate := mkG [] [] [] [] [] [] [] [] [(0, 0)] 1 [].
+Definition g0 : gstate := mkG [] [] [] [] [] [] [] [] [(0, 0)] 1 [] [].
 
 Definition memN (x : N) (l : list N) : bool := existsb (N.eqb x) l.
 Fixpoint lookup {A} (k : N) (l : list (N * A)) : option A :=
@@ -99,13 +100,14 @@ Definition resolve (slots : list (path * N)) (g : gstate) (own : list N) (rs : l
 (* ---- emptyTrash: read trash rows + preserved paths; delete files one by one; delete records and trash rows (one block) *)
 Definition ET_READ := 10%nat. Definition ET_FILES := 11%nat. Definition ET_RECS := 12%nat.
 
-Definition with_files (g : gstate) f := mkG (colls g) (chains g) (dsets g) (tags g) (loc g) (trashl g) (recs g) f (dtypes g) (next g) (runs g).
-Definition with_recs (g : gstate) r := mkG (colls g) (chains g) (dsets g) (tags g) (loc g) (trashl g) r (files g) (dtypes g) (next g) (runs g).
-Definition with_trashl (g : gstate) t := mkG (colls g) (chains g) (dsets g) (tags g) (loc g) t (recs g) (files g) (dtypes g) (next g) (runs g).
-Definition with_colls (g : gstate) c := mkG c (chains g) (dsets g) (tags g) (loc g) (trashl g) (recs g) (files g) (dtypes g) (next g) (runs g).
-Definition with_chains (g : gstate) c := mkG (colls g) c (dsets g) (tags g) (loc g) (trashl g) (recs g) (files g) (dtypes g) (next g) (runs g).
-Definition with_runs (g : gstate) r := mkG (colls g) (chains g) (dsets g) (tags g) (loc g) (trashl g) (recs g) (files g) (dtypes g) (next g) r.
-Definition with_dtypes (g : gstate) d := mkG (colls g) (chains g) (dsets g) (tags g) (loc g) (trashl g) (recs g) (files g) d (next g) (runs g).
+Definition with_files (g : gstate) f := mkG (colls g) (chains g) (dsets g) (tags g) (loc g) (trashl g) (recs g) f (dtypes g) (next g) (runs g) (gtabs g).
+Definition with_recs (g : gstate) r := mkG (colls g) (chains g) (dsets g) (tags g) (loc g) (trashl g) r (files g) (dtypes g) (next g) (runs g) (gtabs g).
+Definition with_trashl (g : gstate) t := mkG (colls g) (chains g) (dsets g) (tags g) (loc g) t (recs g) (files g) (dtypes g) (next g) (runs g) (gtabs g).
+Definition with_colls (g : gstate) c := mkG c (chains g) (dsets g) (tags g) (loc g) (trashl g) (recs g) (files g) (dtypes g) (next g) (runs g) (gtabs g).
+Definition with_chains (g : gstate) c := mkG (colls g) c (dsets g) (tags g) (loc g) (trashl g) (recs g) (files g) (dtypes g) (next g) (runs g) (gtabs g).
+Definition with_runs (g : gstate) r := mkG (colls g) (chains g) (dsets g) (tags g) (loc g) (trashl g) (recs g) (files g) (dtypes g) (next g) r (gtabs g).
+Definition with_gtabs (g : gstate) t := mkG (colls g) (chains g) (dsets g) (tags g) (loc g) (trashl g) (recs g) (files g) (dtypes g) (next g) (runs g) t.
+Definition with_dtypes (g : gstate) d := mkG (colls g) (chains g) (dsets g) (tags g) (loc g) (trashl g) (recs g) (files g) d (next g) (runs g) (gtabs g).
 
 Definition et_step (g : gstate) (own : list N) (s : scratch) : gstate * nxt :=
   match ph s with
@@ -131,10 +133,10 @@ Definition et_step (g : gstate) (own : list N) (s : scratch) : gstate * nxt :=
 (* ---- pieces of the registry *)
 Definition trash_move (g : gstate) (is : list N) : gstate :=
   let moved := interN is (loc g) in
-  mkG (colls g) (chains g) (dsets g) (tags g) (diffN (loc g) moved) (trashl g ++ moved) (recs g) (files g) (dtypes g) (next g) (runs g).
+  mkG (colls g) (chains g) (dsets g) (tags g) (diffN (loc g) moved) (trashl g ++ moved) (recs g) (files g) (dtypes g) (next g) (runs g) (gtabs g).
 Definition drop_dsets (g : gstate) (is : list N) : gstate :=
   mkG (colls g) (chains g) (filter (fun d => negb (memN (d_id d) is)) (dsets g))
-      (filter (fun t => negb (memN (snd t) is)) (tags g)) (loc g) (trashl g) (recs g) (files g) (dtypes g) (next g) (runs g).
+      (filter (fun t => negb (memN (snd t) is)) (tags g)) (loc g) (trashl g) (recs g) (files g) (dtypes g) (next g) (runs g) (gtabs g).
 
 (* registry.removeCollection inside a block: None = refused with that error, state untouched *)
 Definition remove_coll (g : gstate) (n : N) : gstate + err :=
@@ -145,7 +147,7 @@ Definition remove_coll (g : gstate) (n : N) : gstate + err :=
       else if existsb (fun i => memN i (loc g)) (ids_in_run g n) then inr ESqlIntegrity
       else let g1 := drop_dsets g (ids_in_run g n) in
            inl (mkG (remove_key n (colls g1)) (remove_key n (chains g1)) (dsets g1)
-                    (filter (fun x => negb (fst x =? n)) (tags g1)) (loc g1) (trashl g1) (recs g1) (files g1) (dtypes g1) (next g1) (filter (fun x => negb (x =? n)) (runs g1)))
+                    (filter (fun x => negb (fst x =? n)) (tags g1)) (loc g1) (trashl g1) (recs g1) (files g1) (dtypes g1) (next g1) (filter (fun x => negb (x =? n)) (runs g1)) (gtabs g1))
   end.
 
 Definition sync_coll (g : gstate) (n : N) (t : ctype) : gstate * (bool + err) :=
@@ -222,7 +224,7 @@ Definition mstep (fixed : bool) (slots : list (path * N)) (g : gstate) (own : li
           else if has_key g run det then (g, Done (Err EConflict) own)
           else let i := next g in
                (mkG (colls g) (chains g) (dsets g ++ [mkD i run det v]) (tags g) (loc g ++ [i]) (trashl g)
-                    (recs g ++ [(i, (run, det))]) (((run, det), v) :: premove (run, det) (files g)) (dtypes g) (N.succ i) (runs g),
+                    (recs g ++ [(i, (run, det))]) (((run, det), v) :: premove (run, det) (files g)) (dtypes g) (N.succ i) (runs g) (gtabs g),
                 Done OkU (own ++ [i]))
       | Some _ => (g, Done (Err ECollType) own)
       end
@@ -239,7 +241,7 @@ Definition mstep (fixed : bool) (slots : list (path * N)) (g : gstate) (own : li
           if existsb bad is then (g, Done (Err EConflict) own)
           else (mkG (colls g) (chains g) (dsets g)
                     (tags g ++ map (fun i => (tag, i)) (filter (fun i => negb (existsb (fun t => (fst t =? tag) && (snd t =? i)) (tags g))) is))
-                    (loc g) (trashl g) (recs g) (files g) (dtypes g) (next g) (runs g), Done OkU own)
+                    (loc g) (trashl g) (recs g) (files g) (dtypes g) (next g) (runs g) (gtabs g), Done OkU own)
       | Some _ => (g, Done (Err ECollType) own)
       end
   | Prune rs =>
@@ -281,8 +283,8 @@ Definition mstep (fixed : bool) (slots : list (path * N)) (g : gstate) (own : li
                                      | Some v' => Some (if v =? v' then OkB false else Err EConflict) | None => None end in
       match ph s with
       | O => match chk g with Some r => (g, Done r own) | None => (g, Cont (at_ph 1 s)) end
-      | 1%nat => (g, Cont (at_ph 2 s))
-      | 2%nat => (g, Cont (at_ph 3 s))
+      | 1%nat => (g, Cont (at_ph (if memN (N.div v 2) (gtabs g) then 3 else 2) s))   (* tables there already: no creation block *)
+      | 2%nat => ((if memN (N.div v 2) (gtabs g) then g else with_gtabs g (N.div v 2 :: gtabs g)), Cont (at_ph 3 s))
       | _ => match chk g with
              | Some r => (g, Done r own)
              | None => (with_dtypes g (dtypes g ++ [(n, v)]), Done (OkB true) own) end
